@@ -244,7 +244,14 @@ def run(pid, tier, seed):
         if pid in hit:
             res['broken'].append('correspondence (classes %s) on shape %s config %s: %s' % (
                 ','.join(classes), d['shape'], json.dumps(d['config'], sort_keys=True), d['message'][:900]))
-    res['rejections'] = list(full['rejections'].get(pid, []))[:50]
+    # at most three examples per distinct kind of rejection
+    seen = {}
+    for r in full['rejections'].get(pid, []):
+        k = re.sub(r'\d+', '#', r.get('what', ''))[:120]
+        seen[k] = seen.get(k, 0) + 1
+        if seen[k] <= 3:
+            res['rejections'].append(r)
+    res['rejections'] = res['rejections'][:60]
     progs = [p for p in full['programs'] if p.get('built')]
     lines = sum(p.get('lines', 0) for p in progs)
     st = full['stats']
